@@ -129,6 +129,17 @@ pub fn scope_case() -> BoxedStrategy<ScopeCase> {
             let service = variant(&plan.cfg.service, SERVICES, dev[2], sel.2, ed.2);
             let term = variant("aws4_request", &["aws4", "AWS4_REQUEST", "aws4_request/", "aws3_request", "request"], dev[3], sel.3, ed.3);
             let mut parts = vec![date, region, service, term];
+            if sel.0 % 16 == 15 {
+                // move the boundary between two adjacent components: the concatenation stays the expected one
+                let k = (ed.0 as usize) % 3;
+                if ed.0 % 2 == 0 && !parts[k].is_empty() {
+                    let c = parts[k].pop().unwrap();
+                    parts[k + 1].insert(0, c);
+                } else if !parts[k + 1].is_empty() {
+                    let c = parts[k + 1].remove(0);
+                    parts[k].push(c);
+                }
+            }
             match nparts {
                 4 => {}
                 n if n < 4 => parts.truncate(n),
